@@ -74,3 +74,8 @@ Theorem C14_range_patch_is_its_points :
       else lookup k left.
 Proof. exact range_patch_is_its_points. Qed.
 Print Assumptions C14_range_patch_is_its_points.
+
+Theorem C14_oracle_on_model :
+  forall i, sorted (i_base i) -> sorted (i_left i) -> sorted (i_right i) -> oracle i (model_obs i) = true.
+Proof. exact oracle_on_model_all_modes. Qed.
+Print Assumptions C14_oracle_on_model.
